@@ -885,7 +885,7 @@ def plan(tier, seed, seam_ok, notes):
                 elif f.fid == 5:
                     pp |= set(range(f.payload_start, min(f.end, f.payload_start + 6)))
                 elif f.fid == 1:
-                    pp |= set(range(f.payload_start, min(f.end, f.payload_start + 6)))
+                    pp |= set(range(f.payload_start, min(f.end, f.payload_start + 4)))
             tailed = [f for f in by_size if fc.zone_uses.get(f.index) is not None and _is_tailed(fc, f)]
             plain = [f for f in by_size if not _is_tailed(fc, f) and (f.end - f.payload_start) > 8]
             whole = by_size[:3] + plain[:1] + tailed[:1] + tailed[len(tailed) // 2:len(tailed) // 2 + 1]
@@ -976,7 +976,7 @@ def plan(tier, seed, seam_ok, notes):
                 plain = [f for f in by_size if not _is_tailed(fc, f) and (f.end - f.payload_start) > 8]
                 tl = [f for f in by_size if _is_tailed(fc, f)]
                 step = max(1, len(tl) // 12)
-                whole = by_size[:3] + plain[:3] + tl[:6] + tl[6::step][:12]
+                whole = by_size[:3] + plain[:3] + tl[:4] + tl[4::step][:6]
                 whole_idx = {f.index for f in whole}
                 notes.setdefault("zone_fields_substituted_with_extended_values", {})[fc.name] = [fc.zone_id[f.index] for f in whole]
                 xv = []
@@ -1116,7 +1116,7 @@ def value_faults(fc, f, mode, donor_tail):
     mode "mid":  count, tail flag, every tail element, the last transition and the last name / offset with their whole sets,
                  the first transition's markers, the id's non-minimal form.
     mode "lite": as mid without the tail elements and with two values for the last name / offset.
-    mode "markers": every transition's four marker encodings and the non-minimal form of every varint."""
+    mode "markers": every transition := end-of-time marker (both encodings) and its own non-minimal re-encoding."""
     pl = F.payload(fc.data, f)
     try:
         els = M.zone_field_elements(pl, fc.pool)
@@ -1132,7 +1132,7 @@ def value_faults(fc, f, mode, donor_tail):
         if mode == "full":
             pass
         elif mode == "markers":
-            vs = [r for r in vs if r[0] in ("marker", "nonminimal")]
+            vs = [r for r in vs if role == "transition" and (r[0] == "nonminimal" or r[3] in ("01", "8100"))]
         elif role in ("count", "tail-flag", "fixed-offset", "fixed-name"):
             pass
         elif role.startswith("tail-"):
